@@ -737,3 +737,237 @@ Proof.
       * cbn. auto.
       * cbn. auto.
 Qed.
+
+Lemma leave_insts s t w r : insts (leave_fixed s t w r) = insts s.
+Proof. unfold leave_fixed. destruct (Z.eqb _ 0); reflexivity. Qed.
+Lemma leave_ninst s t w r : ninst (leave_fixed s t w r) = ninst s.
+Proof. unfold leave_fixed. destruct (Z.eqb _ 0); reflexivity. Qed.
+Lemma leave_mapi s t w r : mapi (leave_fixed s t w r) = mapi s.
+Proof. unfold leave_fixed. destruct (Z.eqb _ 0); reflexivity. Qed.
+Lemma leave_pcs s t w r : pcs (leave_fixed s t w r) = pcs s.
+Proof. unfold leave_fixed. destruct (Z.eqb _ 0); reflexivity. Qed.
+
+Ltac ftriv := apply pc_ok_triv; try reflexivity; intros; discriminate.
+Ltac iframe I t Hpc :=
+  eapply iinv_frame with (t := t);
+  [exact I | cbn; rewrite ?leave_pcs; reflexivity | cbn; rewrite ?leave_insts; reflexivity
+  | cbn; rewrite ?leave_ninst; reflexivity | cbn; rewrite ?leave_mapi; reflexivity
+  | rewrite Hpc; intros; discriminate | rewrite Hpc; reflexivity | ].
+
+Lemma iinv_tstep s t s' l : SInv s -> IInv s -> late_destroy s t = false ->
+  tstep true s t = Some (s', l) -> IInv s'.
+Proof.
+  intros SI I Hok H. unfold tstep in H. unfold late_destroy in Hok.
+  destruct (pcs s t) eqn:Hpc; try discriminate.
+  - (* SLoad *) destruct (cur s); inversion H; subst; clear H; iframe I t Hpc; ftriv.
+  - (* SLock *)
+    destruct (dead (slots s w)); [inversion H; subst; clear H; iframe I t Hpc; ftriv|].
+    destruct (ready (slots s w)); [destruct (abort s t)|]; inversion H; subst; clear H; iframe I t Hpc; ftriv.
+  - (* SWait *)
+    destruct (Nat.eqb (gen (slots s w)) g); [discriminate|].
+    destruct (ready (slots s w)); [destruct (abort s t)|]; inversion H; subst; clear H; iframe I t Hpc; ftriv.
+  - (* SBody *)
+    destruct (abort s t); [inversion H; subst; clear H; iframe I t Hpc; ftriv|].
+    destruct (mapi s) as [i|] eqn:Hm; inversion H; subst; clear H; iframe I t Hpc.
+    + constructor; intros; try discriminate.
+      * destruct H; discriminate.
+      * inversion H; subst. destruct (i_map s I _ Hm). auto.
+    + constructor; intros; try discriminate.
+      * exact Hm.
+      * destruct H; discriminate.
+  - (* SFound *)
+    destruct (closing (insts s i)); inversion H; subst; clear H; iframe I t Hpc; ftriv.
+  - (* SWaitClose *)
+    destruct (cancelled (insts s i)); [inversion H; subst; clear H; iframe I t Hpc; ftriv|].
+    destruct (abort s t); inversion H; subst; clear H; iframe I t Hpc; ftriv.
+  - (* SCreate *) inversion H; subst; clear H. apply iinv_create; assumption.
+  - (* SStore *) inversion H; subst; clear H. apply iinv_store; assumption.
+  - (* SExit *) inversion H; subst; clear H. iframe I t Hpc; ftriv.
+  - (* CGate *)
+    destruct (Nat.ltb_spec i (ninst s)) as [Hlt|]; [|discriminate].
+    destruct (closing (insts s i)) eqn:Hcl; inversion H; subst; clear H.
+    + iframe I t Hpc; ftriv.
+    + apply iinv_gate; auto; try (rewrite Hpc; intros; discriminate); try (rewrite Hpc; reflexivity).
+      destruct (tearer_none_dec (insts s i)) as [A|A]; [exact A|].
+      apply (i_tcl s I) in A. destruct A as [A _]. congruence.
+  - (* CFinish *) inversion H; subst; clear H. apply iinv_finish; auto.
+  - (* CCallback *) inversion H; subst; clear H. apply iinv_callback; auto.
+  - (* DMark *)
+    destruct (Nat.ltb_spec i (ninst s)) as [Hlt|]; [|discriminate].
+    inversion H; subst; clear H. apply iinv_mark; auto.
+  - (* DGate *)
+    destruct (k_dgate _ _ _ (i_pc s I t) i Hpc) as [Hcl Hlt].
+    destruct (destroyed (insts s i)) eqn:Hde; inversion H; subst; clear H.
+    + iframe I t Hpc; ftriv.
+    + apply iinv_gate; auto; try (rewrite Hpc; intros; discriminate); try (rewrite Hpc; reflexivity).
+      destruct (tearer_none_dec (insts s i)) as [A|A]; [exact A|].
+      apply (i_tcl s I) in A. destruct A as [_ [A|A]]; [|congruence].
+      rewrite A in Hok. discriminate.
+  - (* DFinish *) inversion H; subst; clear H. apply iinv_finish; auto.
+  - (* DCallback *) inversion H; subst; clear H. apply iinv_callback; auto.
+  - (* KCancel *) inversion H; subst; clear H. iframe I t Hpc; ftriv.
+Qed.
+
+(* ================= all schedules ================= *)
+
+Definition Inv (s : st) : Prop := SInv s /\ IInv s.
+
+Lemma start_reg p : reg (start p) = None /\ insec (start p) = None /\ sref (start p) = None.
+Proof. destruct p; simpl; auto. Qed.
+
+Lemma inv_init progs : Inv (init progs).
+Proof.
+  split.
+  - constructor; cbn.
+    + discriminate.
+    + intros w A. lia.
+    + reflexivity.
+    + reflexivity.
+    + intros w. constructor.
+    + intros w t. destruct (start_reg (progs t)) as [A _]. rewrite A. split; [intros []|discriminate].
+    + reflexivity.
+    + intros w t. destruct (start_reg (progs t)) as [_ [A _]]. rewrite A. discriminate.
+    + intros t w. destruct (start_reg (progs t)) as [_ [_ A]]. rewrite A. discriminate.
+  - constructor; cbn.
+    + discriminate.
+    + intros i A. lia.
+    + discriminate.
+    + discriminate.
+    + discriminate.
+    + discriminate.
+    + intros i A. congruence.
+    + reflexivity.
+    + intro t. apply pc_ok_triv; destruct (progs t); try reflexivity; intros; discriminate.
+Qed.
+
+Lemma inv_run sched : forall s, Inv s -> no_late_destroy true s sched = true -> Inv (run true s sched).
+Proof.
+  induction sched as [|t r IH]; intros s [SI I] H; simpl in *; [split; assumption|].
+  apply andb_true_iff in H. destruct H as [H1 H2]. apply negb_true_iff in H1.
+  destruct (tstep true s t) as [[s' l]|] eqn:E.
+  - apply IH; [|exact H2]. split; [eapply sinv_tstep; eauto | eapply iinv_tstep; eauto].
+  - apply IH; [split; assumption|exact H2].
+Qed.
+
+Lemma inv_single s : Inv s -> forall i j, live s i -> live s j -> i = j.
+Proof.
+  intros [SI I] i j [Li Ci] [Lj Cj].
+  assert (M : forall k, k < ninst s -> cancelled (insts s k) = false ->
+              stored (insts s k) = true -> mapi s = Some k).
+  { intros k Lk Ck Sk. destruct (tearer (insts s k)) as [x|] eqn:T.
+    - destruct (cbdone (insts s k)) eqn:B.
+      + apply (i_cb s I) in B. congruence.
+      + apply (i_tear s I k x T B). exact Sk.
+    - apply (i_open s I); assumption. }
+  assert (U : forall k, k < ninst s -> stored (insts s k) = false ->
+              mapi s = None /\ exists x w, pcs s x = SStore w k).
+  { intros k Lk Sk. destruct (i_unst s I k Lk Sk) as [x [w E]]. split; [|eauto].
+    apply (k_store _ _ _ (i_pc s I x) _ _ E). }
+  destruct (stored (insts s i)) eqn:Si; destruct (stored (insts s j)) eqn:Sj.
+  - assert (A := M i Li Ci Si). assert (B := M j Lj Cj Sj). congruence.
+  - assert (A := M i Li Ci Si). destruct (U j Lj Sj) as [B _]. congruence.
+  - assert (A := M j Lj Cj Sj). destruct (U i Li Si) as [B _]. congruence.
+  - destruct (U i Li Si) as [_ [x [w E]]]. destruct (U j Lj Sj) as [_ [y [w' F]]].
+    destruct (mutex s x y w w' SI) as [A _]; [rewrite E; reflexivity|rewrite F; reflexivity|].
+    subst y. congruence.
+Qed.
+
+Lemma inv_returns_current s t w i : Inv s ->
+  pcs s t = SFound w i -> closing (insts s i) = false -> mapi s = Some i /\ live s i.
+Proof.
+  intros [SI I] Hpc Hcl.
+  destruct (k_found _ _ _ (i_pc s I t) _ _ Hpc) as [Hst Hlt].
+  assert (T : tearer (insts s i) = None).
+  { destruct (tearer_none_dec (insts s i)) as [A|A]; [exact A|].
+    apply (i_tcl s I) in A. destruct A. congruence. }
+  split; [apply (i_open s I); assumption|]. split; [exact Hlt|].
+  destruct (cancelled (insts s i)) eqn:C; [|reflexivity].
+  apply (i_canc s I) in C. congruence.
+Qed.
+
+Theorem summon_single_instance : forall progs sched,
+  no_late_destroy true (init progs) sched = true ->
+  forall i j, live (run true (init progs) sched) i -> live (run true (init progs) sched) j -> i = j.
+Proof. intros progs sched H. apply inv_single. apply inv_run; [apply inv_init|exact H]. Qed.
+
+Theorem summon_returns_current : forall progs sched t w i,
+  no_late_destroy true (init progs) sched = true ->
+  let s := run true (init progs) sched in
+  pcs s t = SFound w i -> closing (insts s i) = false -> mapi s = Some i /\ live s i.
+Proof. intros progs sched t w i H s. apply inv_returns_current. apply inv_run; [apply inv_init|exact H]. Qed.
+
+Theorem summon_section_exclusive : forall progs sched t t' w w',
+  no_late_destroy true (init progs) sched = true ->
+  let s := run true (init progs) sched in
+  insec (pcs s t) = Some w -> insec (pcs s t') = Some w' -> t = t' /\ w = w'.
+Proof.
+  intros progs sched t t' w w' H s. apply mutex.
+  apply (inv_run sched (init progs) (inv_init progs) H).
+Qed.
+
+(* the slot part does not depend on the close/destroy hypothesis at all *)
+Lemma sinv_run sched : forall s, SInv s -> SInv (run true s sched).
+Proof.
+  induction sched as [|t r IH]; intros s SI; simpl; [assumption|].
+  destruct (tstep true s t) as [[s' l]|] eqn:E; [apply IH; eapply sinv_tstep; eauto|apply IH; assumption].
+Qed.
+
+Theorem summon_slot_accounting : forall progs sched w,
+  let s := run true (init progs) sched in
+  count (slots s w) = Z.of_nat (length (owners (slots s w))) /\
+  (forall t, In t (owners (slots s w)) <-> reg (pcs s t) = Some w) /\
+  (cur s = Some w <-> w < nslots s /\ dead (slots s w) = false) /\
+  (dead (slots s w) = true -> count (slots s w) = 0%Z).
+Proof.
+  intros progs sched w s.
+  assert (SI : SInv s) by (apply sinv_run; apply (inv_init progs)).
+  split; [apply (s_cnt s SI)|]. split; [intro t; apply (s_own s SI)|]. split.
+  - split; [apply (s_cur s SI)|intros [A B]; apply (s_alive s SI); assumption].
+  - intro D. rewrite (s_cnt s SI). rewrite (s_dead s SI w D). reflexivity.
+Qed.
+
+(* ---- refutations ---- *)
+Theorem summon_two_live_old_accounting :
+  exists progs sched, nlive (run false (init progs) sched) = 2.
+Proof. exists (progs_of witness_progs), witness_old. vm_compute. reflexivity. Qed.
+
+Theorem summon_slot_leak_old_accounting :
+  exists progs sched, let s := run false (init progs) sched in
+    count (slots s 0) = (-2)%Z /\ cur s = Some 0 /\ pcs s 0 = SDone (Some 0) /\ pcs s 1 = SDone (Some 0).
+Proof.
+  exists (progs_of [PSummon; PSummon]), [0;0;0;0;0;0;0;0;0; 1;1;1;1;1;1;1]. vm_compute. auto.
+Qed.
+
+Theorem summon_two_live_late_destroy :
+  exists progs sched, nlive (run true (init progs) sched) = 2 /\
+                      no_late_destroy true (init progs) sched = false.
+Proof. exists (progs_of witness_late_progs), witness_late. vm_compute. auto. Qed.
+
+Lemma live_count s n : (forall i j, i < n -> j < n -> cancelled (insts s i) = false ->
+                          cancelled (insts s j) = false -> i = j) -> count_live s n <= 1.
+Proof.
+  induction n as [|k IH]; intro H; simpl; [lia|].
+  destruct (cancelled (insts s k)) eqn:C.
+  - simpl. apply IH. intros i j A B. apply H; lia.
+  - assert (Z : count_live s k = 0).
+    { clear IH. assert (forall m, m <= k -> count_live s m = 0) as G; [|apply G; lia].
+      induction m as [|m IHm]; intro Hm; simpl; [reflexivity|].
+      destruct (cancelled (insts s m)) eqn:Cm; [apply IHm; lia|].
+      assert (m = k) by (apply H; try lia; assumption). lia. }
+    lia.
+Qed.
+
+Theorem summon_nlive_le_1 : forall progs sched,
+  no_late_destroy true (init progs) sched = true -> nlive (run true (init progs) sched) <= 1.
+Proof.
+  intros progs sched H. unfold nlive. apply live_count.
+  intros i j A B C D. eapply summon_single_instance; eauto; split; assumption.
+Qed.
+
+(* non-vacuity: the old-accounting witness schedule satisfies the hypothesis, has a waiting
+   summoner, a destroy, and ends with two instances constructed of which one is live (not yet stored) *)
+Example summon_hyp_satisfiable :
+  let s := run true (init (progs_of witness_progs)) witness_old in
+  no_late_destroy true (init (progs_of witness_progs)) witness_old = true /\
+  ninst s = 2 /\ nlive s = 1 /\ mapi s = None.
+Proof. vm_compute. auto. Qed.
